@@ -98,6 +98,7 @@ fn run_all<P: Send + Sync + 'static>(paths: Vec<replay::PathRec<P>>, run: Runner
     let progress: Option<Arc<Mutex<std::fs::File>>> =
         arg_val(args, "--progress").and_then(|f| std::fs::OpenOptions::new().create(true).append(true).open(f).ok()).map(|f| Arc::new(Mutex::new(f)));
     let paths = Arc::new(paths);
+    let hangs = Arc::new(AtomicUsize::new(0));
     let next = Arc::new(AtomicUsize::new(0));
     let results = Arc::new(Mutex::new(Vec::new()));
     let obs_out = Arc::new(Mutex::new(Vec::<(u64, Vec<String>)>::new()));
@@ -111,6 +112,7 @@ fn run_all<P: Send + Sync + 'static>(paths: Vec<replay::PathRec<P>>, run: Runner
         let run = run.clone();
         let want_obs = obs_file.is_some();
         let progress = progress.clone();
+        let hangs = hangs.clone();
         let mark = move |tag: &str, id: u64| {
             if let Some(f) = &progress {
                 use std::io::Write;
@@ -122,6 +124,11 @@ fn run_all<P: Send + Sync + 'static>(paths: Vec<replay::PathRec<P>>, run: Runner
             if i >= paths.len() {
                 break;
             }
+            // code that blocks where the unchanged code does not costs HANG_TIMEOUT per path: after a few dozen of
+            // them the verdict on conformance is clear and the rest of the tour is not executed
+            if hangs.load(Ordering::SeqCst) >= 30 {
+                continue;
+            }
             mark("S", paths[i].id);
             // fast pass without recording; executions that do not conform (and a sample
             // of those that do) are re-executed - the schedule is deterministic - with the
@@ -131,6 +138,9 @@ fn run_all<P: Send + Sync + 'static>(paths: Vec<replay::PathRec<P>>, run: Runner
             if want_obs && (!r.conform || sampled) {
                 let (_, lines) = run(&paths[i], true);
                 obs_out.lock().unwrap().push((paths[i].id, lines));
+            }
+            if r.hung {
+                hangs.fetch_add(1, Ordering::SeqCst);
             }
             results.lock().unwrap().push(r);
             mark("E", paths[i].id);
@@ -148,7 +158,7 @@ fn run_all<P: Send + Sync + 'static>(paths: Vec<replay::PathRec<P>>, run: Runner
     let steps: usize = results.iter().map(|r| r.steps).sum();
     let divs: Vec<_> = results.iter().filter(|r| !r.conform).take(20).collect();
     let summary = json!({
-        "paths": total, "conform": conform, "nonconform": total - conform, "hung": hung, "steps": steps, "inconclusive": inconclusive,
+        "paths": total, "not_executed_after_hangs": paths.len() - total, "conform": conform, "nonconform": total - conform, "hung": hung, "steps": steps, "inconclusive": inconclusive,
         "wall_s": t0.elapsed().as_secs_f64(),
         "first_divergences": divs,
         "nonconform_ids": results.iter().filter(|r| !r.conform).map(|r| r.id).collect::<Vec<_>>(),
